@@ -220,7 +220,7 @@ def analysis_check(pid, tier, seed, *, items, want, builders, N, variants=None, 
 
 
 def standard_items(run_seed, tier, n_gen_quick, n_gen_thorough, bench_quick=15, profile=None, maxdeg=2, ngoals=5,
-                   corpus=True, bench=True, corpus_quick=None, ps_quick=0, ps_thorough=0, bench_thorough=60):
+                   corpus=True, bench=True, corpus_quick=None, ps_quick=0, ps_thorough=0, bench_thorough=40):
     quick = tier == "quick"
     items = C.corpus_files() if corpus else []
     if quick and corpus_quick is not None:
